@@ -95,6 +95,17 @@ class C11(XsProp):
             b = wrap(lit)
             cs.append('xs limits 6000 - - | clone | eval %s | stack | out | code 0 | dict 239 | use 1 | eval %s | stack | out | code 0 | dict 239'
                       % (hexsrc(a), hexsrc(b)))
+        # a block inside a definition uses a constant whose name is also a local of that definition (declared before the block):
+        # the block is sealed, it means the constant
+        pairs = [('#( 6 const SIX #) : ff local SIX #( SIX 1 + #) SIX + ; 10 ff', '#( 6 const SIX #) : ff local SIX 7 SIX + ; 10 ff'),
+                 ('#( 2 const TWO #) : gg local a local TWO #( TWO TWO * #) a TWO ; 8 9 gg', '#( 2 const TWO #) : gg local a local TWO 4 a TWO ; 8 9 gg'),
+                 ('#( 6 const SIX #) : hh local SIX 3 0 do #( SIX #) drop loop SIX ; 1 hh', '#( 6 const SIX #) : hh local SIX 3 0 do 6 drop loop SIX ; 1 hh'),
+                 ('#( 6 const SIX #) : kk local q #( SIX #) q ; 1 kk', '#( 6 const SIX #) : kk local q 6 q ; 1 kk'),
+                 (': mm local zz #( 1 2 + #) zz ; 5 mm', ': mm local zz 3 zz ; 5 mm')]
+        for a, b in pairs:
+            for pre in ('', '100 200'):
+                cs.append('xs limits 6000 - - | clone | eval %s | stack | out | code 0 | dict 239 | use 1 | eval %s | stack | out | code 0 | dict 239'
+                          % (hexsrc((pre + ' ' + a).strip()), hexsrc((pre + ' ' + b).strip())))
         # sealing: the block cannot see or change the surroundings
         for i in range(n // 5):
             e = rng.choice(SEAL)
